@@ -602,6 +602,29 @@ RBDL_DLLAPI SpatialVector CalcPointAcceleration6D(
 }
 
 #ifndef RBDL_USE_CASADI_MATH
+// Q <- Q (+) delta: delta has one entry per degree of freedom; spherical joints are
+// updated through their quaternion (as CalcAssemblyQ does), so that models whose
+// q_size differs from qdot_size are handled.
+static void IKApplyStep (
+    const Model &model,
+    const VectorNd &delta,
+    VectorNd &Q) {
+  for (size_t i = 1; i < model.mJoints.size(); ++i) {
+    unsigned int q_index = model.mJoints[i].q_index;
+    if (model.mJoints[i].mJointType == JointTypeSpherical) {
+      Quaternion quat = model.GetQuaternion (i, Q);
+      Vector3d omega (delta[q_index], delta[q_index + 1], delta[q_index + 2]);
+      quat += quat.omegaToQDot (omega);
+      quat /= quat.norm();
+      model.SetQuaternion (i, quat, Q);
+    } else {
+      for (unsigned int j = 0; j < model.mJoints[i].mDoFCount; ++j) {
+        Q[q_index + j] += delta[q_index + j];
+      }
+    }
+  }
+}
+
 RBDL_DLLAPI bool InverseKinematics (
     Model &model,
     const VectorNd &Qinit,
@@ -666,7 +689,7 @@ RBDL_DLLAPI bool InverseKinematics (
     VectorNd delta_theta = J.transpose() * z;
     LOG << "change = " << delta_theta << std::endl;
 
-    Qres = Qres + delta_theta;
+    IKApplyStep (model, delta_theta, Qres);
     LOG << "Qres = " << Qres.transpose() << std::endl;
 
     if (delta_theta.norm() < step_tol) {
@@ -976,11 +999,9 @@ bool InverseKinematics (
     }
 
     VectorNd ek = CS.J.transpose() * CS.e;
-    MatrixNd Wn = MatrixNd::Zero (Qres.size(), Qres.size());
+    MatrixNd Wn = MatrixNd::Zero (ek.size(), ek.size());
 
-    assert (ek.size() == Qres.size());
-
-    for (size_t wi = 0; wi < Qres.size(); wi++) {
+    for (size_t wi = 0; wi < (size_t) ek.size(); wi++) {
       Wn(wi, wi) = ek[wi] * ek[wi] * 0.5 + CS.lambda;
       //      Wn(wi, wi) = Ek + 1.0e-3;
     }
@@ -988,7 +1009,7 @@ bool InverseKinematics (
     MatrixNd A = CS.J.transpose() * CS.J + Wn;
     VectorNd delta_theta = A.colPivHouseholderQr().solve(CS.J.transpose() * CS.e);
 
-    Qres = Qres + delta_theta;
+    IKApplyStep (model, delta_theta, Qres);
     CS.delta_q_norm = delta_theta.norm();
     if (CS.delta_q_norm < CS.step_tol) {
       LOG << "reached convergence after " << CS.num_steps << " steps" << std::endl;
